@@ -263,6 +263,7 @@ def run(ck, F):
     # unformatted output with an explicit extent: write(buffer, n) / put(c) on the stream or its buffer
     c_string_insertions(ck, F, 'C18')
     loop_counters(ck, F, 'C18')
+    small_integer_insertions(ck, F, 'C18')
     R5 = ck.rule('C18.explicit-extent-writes', 'an unformatted write of the printer (ostream::write / put, streambuf::sputn / sputc) takes its '
                  'bytes from a whole character view (data() and size() of the same object: a spelling of the graph) or from a constant '
                  'whose bytes up to the largest extent the call can ask for are printable: no terminating NUL or control byte reaches the '
@@ -691,3 +692,32 @@ def loop_counters(ck, F, prefix):
                          'never ends', loc=f['loc'], fn=f['id'])
     if n_loops == 0:
         ck.check(R, 'inventory', True, '')
+
+
+def small_integer_insertions(ck, F, prefix):
+    """<prefix>.no-small-integer-as-character: `stream << x` with x of type unsigned char / signed char (std::uint8_t, std::int8_t: the
+    representation of a small enumeration) writes the *byte* x, not its digits -- a control byte for the small values such a type holds."""
+    R = ck.rule(f'{prefix}.no-small-integer-as-character', 'no value of type unsigned char / signed char (std::uint8_t, std::int8_t -- the representation '
+                'of a small enumeration, a count) is inserted into the stream or the printer as it is: the stream takes it for a character and writes '
+                'one raw byte (0x01 for the value 1), not the number', floor=1)
+    n = 0
+    for f in sorted(F.fn.values(), key=lambda f: f['id']):
+        if f['loc'].split(':')[0] not in PRINTER_FILES:
+            continue
+        for m in walk(f.get('body')):
+            c = m.get('callee') or {}
+            if m.get('k') != 'call' or c.get('name') != 'operator<<':
+                continue
+            cid = c.get('id') or ''
+            hit = None
+            for ty in ('unsigned char', 'signed char'):
+                if cid.startswith(f'ipr::Printer::operator<<<{ty}>(') or (c.get('repo') is False and cid.endswith(f', {ty})') and 'basic_ostream' in cid):
+                    hit = ty
+            n += 1
+            if hit is None:
+                continue
+            a = (m.get('args') or [{}])[-1]
+            const = 'cv' in a or 'cv' in strip_casts(a)
+            ck.check(R, f'{contracts.short(contracts.fn_qname(f["id"]))}:{m.get("ln")}', const and 0x20 <= int(a.get('cv', strip_casts(a).get('cv', 0))) < 0x7f,
+                     f'{f["id"]} (line {m.get("ln")}) inserts a value of type {hit}: it is written as one raw byte, not as a number', loc=f['loc'], fn=f['id'])
+    ck.check(R, 'inventory', n > 0, 'no insertion found in the printer files')
